@@ -68,6 +68,7 @@ func C10(ctx *Ctx) {
 			wantStartV := o.Convert(o.Add(B, a), 64, false, true)
 			wantEndV := o.Convert(o.Add(B, absint.NewConst(32, 0x8000, false)), 64, false, true)
 			wantStart, wantEnd := wantStartV.Lin.Key(), wantEndV.Lin.Key()
+			oneShortV := o.Convert(o.Add(B, absint.NewConst(32, 0x7FFF, false)), 64, false, true)
 			// equal terms, or - for another spelling of the same arithmetic - equal provenance of every bit
 			same := func(v, want *absint.Int) bool {
 				return v != nil && (v.Lin.Key() == want.Lin.Key() || absint.SameBits(v, want))
@@ -100,7 +101,9 @@ func C10(ctx *Ctx) {
 					} else {
 						R.Pass("window", "BusReader:start", pos, "bank<<15 + (offset-$8000)")
 					}
-					if !same(o.Add(readerSlice.Off, readerSlice.Len), wantEndV) {
+					if got := o.Add(readerSlice.Off, readerSlice.Len); same(got, oneShortV) {
+						R.Fail("window", "BusReader:end", pos, fmt.Sprintf("window ends (exclusive) at bank<<15|$7FFF, one short of the bank's end %s: the last byte of the bank cannot be read", wantEnd))
+					} else if !same(got, wantEndV) {
 						R.Fail("window", "BusReader:end", pos, fmt.Sprintf("window ends (exclusive) at %s, want %s: the last byte(s) of the bank cannot be read", e, wantEnd))
 					} else {
 						R.Pass("window", "BusReader:end", pos, "bank<<15 + $8000")
@@ -141,7 +144,9 @@ func C10(ctx *Ctx) {
 			} else {
 				R.Pass("window", "BusWriter:start", pos, "bank<<15 + (offset-$8000)")
 			}
-			if e := get(roles.end); !same(getV(roles.end), wantEndV) {
+			if e := get(roles.end); same(getV(roles.end), oneShortV) {
+				R.Fail("window", "BusWriter:end", pos, fmt.Sprintf("writer window ends (exclusive) at bank<<15|$7FFF, one short of the bank's end %s: the last byte of the bank cannot be written", wantEnd))
+			} else if !same(getV(roles.end), wantEndV) {
 				R.Fail("window", "BusWriter:end", pos, fmt.Sprintf("writer window ends (exclusive) at %s, want %s: the last byte(s) of the bank cannot be written", e, wantEnd))
 			} else {
 				R.Pass("window", "BusWriter:end", pos, "bank<<15 + $8000")
